@@ -251,6 +251,60 @@ pub fn judge(c: &Case, st: &mut Stats) -> Verdict {
             ));
         }
     }
+    // v1: a receiver that keeps text (re-parses with try_from(&str) whenever the buffer is valid UTF-8 up to the read boundary)
+    if is_v1 {
+        if let Ok(text) = std::str::from_utf8(&stream) {
+            let mut have = 0usize;
+            for n in reads(stream.len(), c.split_seed.rotate_left(13)) {
+                have += n;
+                if !text.is_char_boundary(have) {
+                    // the read ended inside a character: nothing to parse until the rest of it arrives
+                    if have >= stream.len() {
+                        break;
+                    }
+                    continue;
+                }
+                let r = match imp::v1_str(&text[..have]) {
+                    Ok(r) => r,
+                    Err(p) => {
+                        // the receiver is owed a header here; a panic is not one
+                        if have >= h.len() {
+                            return Err(Fail::new(
+                                "receiver-panics:text-parser",
+                                sh(h),
+                                "v1::Header::try_from(&str) in a read loop",
+                                format!("the header once all {} header bytes are buffered ({} buffered)", h.len(), have),
+                                format!("panic: {}", p),
+                            ));
+                        }
+                        return Ok(());
+                    }
+                };
+                if r.is_complete() {
+                    let ok_len = r.as_ref().ok().map(|x| x.header.len());
+                    if have < h.len() || ok_len != Some(h.len()) {
+                        return Err(Fail::new(
+                            "receiver-diverges:text-parser",
+                            sh(h),
+                            "v1::Header::try_from(&str) in a read loop",
+                            format!("stops once all {} header bytes have arrived, with a header of that length", h.len()),
+                            format!("stopped with {} bytes buffered: {}", have, imp::short(&format!("{:?}", r))),
+                        ));
+                    }
+                    break;
+                } else if have >= h.len() {
+                    return Err(Fail::new(
+                        "receiver-keeps-waiting:text-parser",
+                        sh(h),
+                        "v1::Header::try_from(&str) in a read loop",
+                        format!("a complete result once all {} header bytes are buffered", h.len()),
+                        format!("still incomplete with {} bytes buffered: {}", have, imp::short(&format!("{:?}", r))),
+                    ));
+                }
+            }
+            st.class("text-receiver");
+        }
+    }
     if !c.trailer.is_empty() {
         st.class("stream-with-trailer");
     }
@@ -371,7 +425,12 @@ fn gen_case(t: &mut Tape) -> Case {
             x
         }
     };
-    let trailer = if t.coin() { gen::gen_trailer(t, false).0 } else { vec![] };
+    // half of the trailers are valid UTF-8 (text rich in multi-byte characters among them), so that the text receiver runs too
+    let trailer = match t.below(4) {
+        0 | 1 => vec![],
+        2 => gen::gen_trailer(t, true).0,
+        _ => gen::gen_trailer(t, false).0,
+    };
     Case { header, trailer, split_seed: t.u32() }
 }
 
